@@ -33,6 +33,7 @@ type suComp struct {
 	srv  *subscribe.Server
 	subs map[string]*suSub
 	pregate map[string]bool // ids whose stream starts with flow control shut
+	afterFeed func(l *ctree.Leaf) // runs inside the cache's client callback after the event was forwarded
 }
 
 func init() { components["su"] = &suComp{} }
@@ -436,6 +437,9 @@ func (c *suComp) Run(args []string) string {
 		c.ca.c.SetClient(func(l *ctree.Leaf) {
 			c.ca.record(l)
 			c.srv.Update(l)
+			if f := c.afterFeed; f != nil {
+				f(l)
+			}
 		})
 		quiesce()
 		return out
@@ -448,6 +452,42 @@ func (c *suComp) Run(args []string) string {
 	case "pregate":
 		c.pregate[decStr(args[1])] = true
 		return "ok"
+	case "subreset":
+		// `subreset <id> <acl> <req> <target> <now>`: Cache.Reset(target) with a subscription attached in
+		// the middle of it — from inside the cache's client callback, right after the first whole-subtree
+		// delete of the reset was forwarded.  Whatever the subscriber was or was not sent, once
+		// everything is quiet its view must agree with the cache (a delete announced before the leaves
+		// are gone would leave it holding leaves nobody will ever tell it to drop).  What it received is
+		// discarded; the observation is its status and the view monitor.  (Model: reset, then subscribe.)
+		if len(args) != 6 {
+			return "bad-op"
+		}
+		target := decStr(args[4])
+		attached := false
+		if args[2] == "-" {
+			c.noACLServer() // (installing it replaces the cache's client callback: not from inside that callback)
+		}
+		c.afterFeed = func(l *ctree.Leaf) {
+			n, ok := l.Value().(*pb.Notification)
+			if attached || !ok || len(n.GetDelete()) == 0 || n.GetPrefix().GetTarget() != target {
+				return
+			}
+			attached = true
+			c.afterFeed = nil
+			c.Run([]string{"sub", args[1], args[2], args[3]})
+		}
+		c.ca.Run([]string{"reset", args[4], args[5]})
+		c.afterFeed = nil
+		quiesce()
+		if !attached {
+			c.Run([]string{"sub", args[1], args[2], args[3]})
+		}
+		s := c.subs[decStr(args[1])]
+		if s == nil {
+			return "no-such-subscriber"
+		}
+		s.drain()
+		return s.status() + " mon=" + c.viewCheck(s)
 	case "sub", "subw":
 		id := decStr(args[1])
 		ran := false
@@ -602,6 +642,9 @@ func (c *suComp) noACLServer() *subscribe.Server {
 		c.ca.record(l)
 		withACL.Update(l)
 		s.Update(l)
+		if f := c.afterFeed; f != nil {
+			f(l)
+		}
 	})
 	return s
 }
@@ -847,6 +890,9 @@ func (s *suGen) genSub(id string) {
 		op := s.g.seq[0]
 		s.g.seq = saved
 		s.emit("subw %s %s %s %s %s", encStr(id), acl, req, []string{"start", "end"}[r.Intn(2)], op)
+	} else if mode == "s" && !s.gate[id] && req != "eof" && r.Intn(6) == 0 {
+		// the subscription attaches in the middle of a Reset of one of the targets
+		s.emit("subreset %s %s %s %s %d", encStr(id), acl, req, encStr(g.targets[r.Intn(len(g.targets))]), g.tick())
 	} else {
 		s.emit("sub %s %s %s", encStr(id), acl, req)
 	}
